@@ -1,4 +1,4 @@
-//@serves C03 C05 C12 C10
+//@serves C03 C05 C12 C10 C11
 //@tier A
 //@include prelude/head.rs
 verus! {
